@@ -16,6 +16,15 @@ CLAIMED = {
               'validated by TLC against SliceSelTrace.tla.'),
         note='Trusts TLC, the Json community module and the harness rendering of option-string part classes; steps >= 1 only.',
         technique='TLA+ spec + TLC model checking; spec-derived exhaustive replay; TLC trace validation'),
+    'C16': dict(
+        category='model_checking', design='3/C16',
+        text=('TLC checks that the run-forming design of RLE / RLEType01 (Rle.tla: Add, value walk, largest_le bisect, '
+              'tellLrForFrame walk) refines the abstract sequence semantics (RleAbs.tla) for every integer sequence over '
+              '-2..3 up to length 5/6 and every record-triple sequence up to length 5/6; the call history of real objects '
+              '(every such short sequence exhaustively with interleaved queries, long seeded-random histories, and a float '
+              'lattice variant) is validated event by event by TLC against RleTrace.tla (abstract state only).'),
+        note='Trusts TLC/Json module; float closeness bound (n+4)*eps*max(...) is checked by the harness, the lattice index by TLC.',
+        technique='TLA+ spec + TLC model checking (design refinement) + TLC trace validation of real call histories'),
 }
 
 NOT_YET = 'check not built yet in this session; planned per DESIGN.md section 3'
